@@ -16,6 +16,8 @@ Each route of the harness is lowered to the bank / hold primitive the Go code re
   qaccept T F       quarantine keeper.go:284 → `SendCoins(quarantine.WithBypass(ctx), fundsHolder, T, record)` → `quarantineAcceptOps`
                     (the route lowerings are lists of primitives in `PvModel/Lock.lean`, run with `applyAll`)
   hold / release    hold keeper `AddHold` / `ReleaseHold`
+  ginit X:c|X^:c|Y:c   hold keeper genesis.go:13 `InitGenesis` of a genesis state with these entries
+                    (`X^` = the address of X spelled in upper-case bech32) → `initGenesisOps`
   commit / pay      exchange `CommitFunds` / `CreatePayment` → `AddHold` (a further hold)
   pay S c id tgt= tamt=   exchange `CreatePayment` (payment record + `AddHold(source amount)`)
   payaccept T S id  exchange payments.go:230 `AcceptPayment` → `acceptPaymentOps`
@@ -109,9 +111,27 @@ def acctDenoms (s : State) (a : Addr) : List Denom :=
     | none => []
   (Coins.denoms (Ledger.balances s.ledger a) ++ Coins.denoms (Ledger.balances s.holds a) ++ Coins.denoms ov).eraseDups
 
+/-- `spendableCoinsOver` for every denom of `ds` at once: the "is any entry negative" scan of
+`SafeSub` is made once instead of once per denom (an account may carry hundreds of denoms) -/
+def spendableAllOver (s : State) (c : Ctx) (a : Addr) (ds : List Denom) : Coins :=
+  let unl := ds.map fun d => (d, s.bal a d - lockedCoins s c a d)
+  let hasNeg := unl.any fun p => decide (p.2 < 0)
+  unl.map fun p => (p.1, if !hasNeg then p.2 else if 0 < p.2 then p.2 else 0)
+
+/-- it is `spendableCoinsOver`, denom by denom -/
+theorem spendableAllOver_eq (s : State) (c : Ctx) (a : Addr) (ds : List Denom) :
+    spendableAllOver s c a ds = ds.map fun d => (d, spendableCoinsOver s c a ds d) := by
+  simp [spendableAllOver, spendableCoinsOver, List.any_map, Function.comp_def]
+
+/-- the denoms the harness asks `SpendableBalanceByDenom` for: all of the balance's, or — of an
+account with more than 24 — the first and last eight in denom order and the eight around the
+hundredth -/
+def byDenomSel (ds : List Denom) : List Denom :=
+  let n := ds.length
+  (ds.zipIdx.filter fun p => n ≤ 24 || p.2 < 8 || n ≤ p.2 + 8 || (96 ≤ p.2 && p.2 < 104)).map (·.1)
+
 def spendableStr (s : State) (c : Ctx) (a : Addr) : String :=
-  let ds := acctDenoms s a
-  showC (posCoins (ds.map fun d => (d, spendableCoinsOver s c a ds d)))
+  showC (posCoins (spendableAllOver s c a (acctDenoms s a)))
 
 def lockedStr (s : State) (c : Ctx) (a : Addr) : String :=
   showC (posCoins ((acctDenoms s a).map fun d => (d, lockedCoins s c a d)))
@@ -203,6 +223,16 @@ private def parseKind (ws : List String) (k : String) : Option Kind :=
     let e ← (kv ws "end") >>= parseInt?
     pure (.vesting (.continuous ov st e))
   | _ => none
+
+/-- the account an entry of a `ginit` line names: `X^` is X's address in upper-case bech32 -/
+def genesisAcct (n : String) : Addr := if n.endsWith "^" then (n.splitOn "^").headD n else n
+
+def genesisEntries (es : List (Addr × Coins)) : List (Addr × Coins) := es.map fun e => (genesisAcct e.1, e.2)
+
+/-- x/hold/genesis.go:12 `GenesisState.Validate`: every entry's amount is a valid `sdk.Coins`
+(hold.go:9), and no address string occurs twice (:24) — the same account in another spelling does -/
+def genesisValid (es : List (Addr × Coins)) : Bool :=
+  es.all (fun e => isValid e.2) && decide ((es.map (·.1)).Nodup)
 
 /-- one transfer through `SendCoins` with the given context, including the quarantine record -/
 private def doSend (ds : DState) (c : Ctx) (src dst : Addr) (amt : Coins) (directive : Option String) : DState × String :=
@@ -558,6 +588,14 @@ def execOp (ds : DState) (ws : List String) : DState × String :=
     | some t => execTx ds t
     | none => (ds, "bad-op")
   | ["hold", a, cs] => finish ds (addHold ds.s {} a (coinsArg cs))
+  -- a genesis import of the hold module: `GenesisState.Validate` (x/hold/genesis.go:12: every amount
+  -- a valid `sdk.Coins`, no address STRING twice), then `InitGenesis`; a refused entry panics
+  | ["ginit", ents] =>
+    let es := parseParts ents
+    if !genesisValid es then (ds, "err:genvalidate")
+    else match applyAll ds.s (initGenesisOps (genesisEntries es)) with
+      | .ok s' => ({ ds with s := s' }, "ok")
+      | .error _ => (ds, "panic:other")
   -- exchange commitments.go:100 `addCommitment` / payments.go:205 `CreatePayment` → `AddHold`
   | ["commit", a, cs] =>
     match addHold ds.s {} a (coinsArg cs) with
@@ -588,8 +626,8 @@ def execOp (ds : DState) (ws : List String) : DState × String :=
   | ["spendable", a] =>
     let ds' := acctDenoms ds.s a
     let bal := Ledger.balances ds.s.ledger a
-    let over := posCoins ((Coins.denoms bal).map fun d => (d, spendableCoinsOver ds.s {} a ds' d))
-    let by' := posCoins ((Coins.denoms bal).map fun d => (d, spendableCoin ds.s {} a d))
+    let over := posCoins ((spendableAllOver ds.s {} a ds').filter fun p => (Coins.denoms bal).contains p.1)
+    let by' := posCoins ((byDenomSel (Coins.denoms bal)).map fun d => (d, spendableCoin ds.s {} a d))
     (ds, s!"ok {showC over} {showC by'}")
   | "kspend" :: a :: rest =>
     let c : Ctx := { vestBypass := kv rest "vb" = some "1", holdBypass := kv rest "hb" = some "1" }
@@ -662,9 +700,10 @@ def verdict (ds : DState) (ws : List String) (impl : String) : String :=
     match snapOf ds a with
     | none => "-"
     | some sn =>
-      let want := showC (posCoins ((Coins.denoms sn.bal).map fun d =>
+      let wantOf := fun (dsel : List Denom) => showC (posCoins (dsel.map fun d =>
         (d, specSpendable (Coins.amountOf sn.bal d) (Coins.amountOf sn.hold d) (Coins.amountOf sn.unvested d))))
-      if impl = s!"ok {want} {want}" then "ok" else "fail:spendable_query_not_formula"
+      let balDs := Coins.denoms (Coins.canon sn.bal)
+      if impl = s!"ok {wantOf balDs} {wantOf (byDenomSel balDs)}" then "ok" else "fail:spendable_query_not_formula"
   | "ask" :: a :: cs :: _ | "bid" :: a :: _ :: cs :: _ =>
     if r ≠ "ok" then "ok" else
     match snapOf ds a with
@@ -680,6 +719,18 @@ def verdict (ds : DState) (ws : List String) (impl : String) : String :=
     | none => "-"
     | some sn =>
       if holdWithinSpendable sn (Coins.canon (coinsArg cs)) then "ok" else "fail:hold_exceeds_spendable"
+  | ["ginit", ents] =>
+    -- an accepted import: what it placed on hold for an account, ALL its entries together, must have
+    -- been within the spendable balance reported before (genesis states that the module's own
+    -- validation refuses are not judged)
+    let es := parseParts ents
+    if !genesisValid es then "-"
+    else if r ≠ "ok" then "ok"
+    else if ds.lastDump.isNone then "-"
+    else if (groupDebits (genesisEntries es)).all (fun (a, amt) => match snapOf ds a with
+        | some sn => holdWithinSpendable sn amt
+        | none => true) then "ok"
+    else "fail:hold_exceeds_spendable"
   | "tx" :: _ =>
     -- an accepted transaction: the base fee (and, when all of it went through, the message's send
     -- and the rest of the fee) must each fit into `bal − hold` of the paying account at that moment
